@@ -52,7 +52,12 @@ def main(argv):
                 rows.append((name, meta['property'], '-', 'PATCH DOES NOT APPLY', r.stderr.strip()[:80]))
                 continue
             for chk in meta.get('checks') or [meta['property']]:
-                env = dict(os.environ, VERIF_REPO=wt, PYTHONPATH=wt)
+                # evidence / replays of a run against a seeded change go to a
+                # scratch directory, never to /verif/evidence
+                scratch = tempfile.mkdtemp(prefix='seeded_ev_')
+                env = dict(os.environ, VERIF_REPO=wt, PYTHONPATH=wt,
+                           VERIF_EVIDENCE_DIR=os.path.join(scratch, 'evidence'),
+                           VERIF_REPLAY_DIR=os.path.join(scratch, 'replays'))
                 cmd = '/venv/bin/python -m dsim.check %s --tier %s --no-selftest' % (chk, tier)
                 if fam:
                     cmd += ' --families %s' % fam
@@ -64,10 +69,20 @@ def main(argv):
                 summary = r.stdout.strip().splitlines()[-1] if r.stdout.strip() else r.stderr[-200:]
                 rows.append((name, meta['property'], chk, verdict, ', '.join(classes) or summary[:100]))
                 print(name, chk, verdict, ', '.join(classes))
+                shutil.rmtree(scratch, ignore_errors=True)
                 # evidence/replays written by these runs belong to the mutant, not to /repo
         finally:
             sh('git -C /repo worktree remove --force %s' % wt)
             shutil.rmtree(wt, ignore_errors=True)
+    # merge with earlier results (one entry per seeded change and check)
+    store = os.path.join(SEEDED, 'results.json')
+    allrows = {}
+    if os.path.exists(store):
+        allrows = json.load(open(store))
+    for row in rows:
+        allrows['%s/%s' % (row[0], row[2])] = list(row)
+    json.dump(allrows, open(store, 'w'), indent=1, sort_keys=True)
+    rows = [tuple(allrows[k]) for k in sorted(allrows)]
     with open(os.path.join(SEEDED, 'RESULTS.md'), 'w') as f:
         f.write('# Seeded breaking changes vs. the checks\n\n'
                 'Produced by `tools/seeded.py` (tier %s). Each change was written by a sub-agent that\n'
